@@ -5,7 +5,7 @@ import ast
 import itertools
 
 from ..core import Run, AnalysisError, dotted, norm
-from ..alg import T, num, var, op, normalize, substitute, Rat, C, same, same_terms, eval_term
+from ..alg import T, num, var, op, app, normalize, substitute, Rat, C, same, same_terms, eval_term
 from ..vecreader import VecReader
 from ..dim import World
 from ..flow import Fn, node_calls, kw
@@ -528,9 +528,12 @@ def _x4(run: Run, S: dict, M: dict) -> None:
                                 + (f": {R.hazards[0][1]}" if R.hazards else ""))
                     break
                 # a vector attached to that point
+                # components: generic numbers times a generic function of the NEW system's base scalars (what an earlier conversion leaves behind):
+                # they belong to the vector and must come through unchanged - only the base vectors are re-expressed
+                comp_fun = app("g", *[sv(b, i_) for i_ in range(3)])
                 vec = num(0)
                 for k in range(3):
-                    vec = op("add", vec, op("mul", var(f"w{k}"), var(f"bv_{a}{k}")))
+                    vec = op("add", vec, op("mul", op("mul", var(f"w{k}"), comp_fun), var(f"bv_{a}{k}")))
                 R = ConvReader()
                 run.ob("X4", f"convert_vector:{a}->{b}{':coordinates-mention-' + selfref + '-scalars' if selfref else ''}")
                 oldp = _XPoint(coords, old)
@@ -545,7 +548,7 @@ def _x4(run: Run, S: dict, M: dict) -> None:
                     for k in range(3):
                         for jx in range(3):
                             coef = substitute(M[(a, b)][0][k][jx], {f"{b}{i}": expect[i] for i in range(3)})
-                            want = op("add", want, op("mul", op("mul", var(f"w{k}"), coef), var(f"bv_{b}{jx}")))
+                            want = op("add", want, op("mul", op("mul", op("mul", var(f"w{k}"), comp_fun), coef), var(f"bv_{b}{jx}")))
                 wired = len(R.vector_calls) == 1 and R.vector_calls[0][0] is old and R.vector_calls[0][1] is new \
                     and isinstance(R.vector_calls[0][2].get("old_args"), list) and R.vector_calls[0][2]["old_args"] == [oldp] \
                     and isinstance(R.vector_calls[0][2].get("new_args"), list) and len(R.vector_calls[0][2]["new_args"]) == 1 \
